@@ -10,6 +10,7 @@ var commands = map[string]func([]string){
 	"c05": runC05,
 	"c10": runC10,
 	"c11": runC11,
+	"c12": runC12,
 	"c15": runC15,
 	"c17": runC17,
 	"c18": runC18,
